@@ -215,13 +215,24 @@ def history_part(ctx):
         ops[0] = 'run'
         executed = []
 
+        in_place = rng.random() < 0.6
+
         def step(k):
             def f(package):
                 executed.append(k)
                 yield package.pkg
                 for res in package:
-                    yield (dict(r, i=r['i'] + 1) for r in res)
+                    if in_place:
+                        yield bump(res)
+                    else:
+                        yield (dict(r, i=r['i'] + 1) for r in res)
             return f
+
+        def bump(res):
+            for r in res:
+                r['i'] += 1          # the documented idiom: edit the row in place
+                r['l'].append('+')
+                yield r
 
         def make_flow():
             links = [copy.deepcopy(data), DF.set_type('n', type='number'), step(0)]
@@ -230,7 +241,7 @@ def history_part(ctx):
                 links.append(step(c + 1))
             return Flow(*links)
         first = None
-        hist_case = {'checkpoints': n_cp, 'rows': len(data), 'ops': ops}
+        hist_case = {'checkpoints': n_cp, 'rows': len(data), 'ops': ops, 'in_place_steps': in_place}
         for j, op in enumerate(ops):
             if op == 'delete':
                 shutil.rmtree(base, ignore_errors=True)
